@@ -141,4 +141,21 @@ std::vector<uint16_t> words_named(const std::string& name, const std::string& fo
     }
     return out;
 }
+int find_word(const std::string& form, const std::vector<long>& values) {
+    for (uint32_t w = 0; w < 0x10000; ++w) {
+        const Info& i = tables().infos[w];
+        if (i.entry < 0 || i.form != form || i.operands.size() < values.size())
+            continue;
+        bool ok = true;
+        for (size_t k = 0; k < values.size() && ok; ++k) {
+            const std::string& t = i.operands[k].type;
+            bool second_word = t == "Imm16" || t == "MemImm16" || t == "MemR7Imm16" || t == "Address18_16" || t == "Address16";
+            if (values[k] >= 0 && !second_word && (long)i.operands[k].value != values[k])
+                ok = false;
+        }
+        if (ok)
+            return (int)w;
+    }
+    return -1;
+}
 } // namespace optable
